@@ -192,6 +192,27 @@ impl<'a> Unpacker<'a> {
 //@ >>
 //@ end
 
+// ---------------------------------------------------------------- length-prefixed byte strings (buffertk)
+// Unpackable::unpack for &[u8] (the trait-impl header is dropped; `v64::unpack(buf)` is the decoder of the header)
+#[verifier::external_body]
+fn v64_unpack<'b>(buf: &'b [u8]) -> (r: Result<(v64, &'b [u8]), SError>)
+    ensures r is Ok ==> r->Ok_0.0.x == dec_value(buf@)
+        && (exists|k: int| 1 <= k <= 10 && k <= buf@.len() && varint_len(r->Ok_0.0.x) <= k && r->Ok_0.1@ == #[trigger] buf@.skip(k)),
+{ unimplemented!() }
+struct BytesCodec { }
+impl BytesCodec {
+//@ extract buffertk/src/lib.rs | impl Unpackable<'a> for &'a [u8] :: fn unpack
+//@ ret r
+//@ rewrite-re X4 `fn unpack<'b: 'a>\(buf: &'b \[u8\]\) -> Result<\(Self, &'b \[u8\]\), SError>` => `fn unpack<'b>(buf: &'b [u8]) -> Result<(&'b [u8], &'b [u8]), SError>`
+//@ rewrite X7 `v64::unpack(buf)?` => `v64_unpack(buf)?`
+//@ rewrite X7 `let x: usize = vsz.into();` => `let x: usize = vsz.into_usize();`
+//@ post <<
+        r is Ok ==> (exists|k: int| 1 <= k <= 10 && k + r->Ok_0.0@.len() <= buf@.len() && r->Ok_0.0@.len() == dec_value(buf@)
+            && r->Ok_0.0@ == (#[trigger] buf@.skip(k)).take(r->Ok_0.0@.len() as int) && r->Ok_0.1@ == buf@.skip(k).skip(r->Ok_0.0@.len() as int)),
+//@ >>
+//@ end
+}
+
 // ---------------------------------------------------------------- FieldIterator
 //@ extract prototk/src/lib.rs | struct FieldIterator
 //@ end
@@ -251,6 +272,6 @@ impl<'a, 'b> FieldIterator<'a, 'b> {
 //@ end
 }
 
-//@ min-verified 12
+//@ min-verified 13
 } // verus!
 fn main() {}
